@@ -53,6 +53,10 @@ MAP = [  # subject substring -> properties whose quick check must catch the reve
     ('replaced the running extreme by any value within 1e-3', ['C11']),
     ('SpearmanCorrelMatrix matched values to their rank within 1e-3', ['C11']),
     ('PearsonCorrelMatrix reported 0 whenever', ['C11']),
+    ('QRDecomposition overwrote every diagonal entry', ['C12']),
+    ('QRDecomposition built the orthogonal factor only inside', ['C12']),
+    ('SVD paired the eigenvectors', ['C12']),
+    ('MatrixPseudoinversion formed U S^-1', ['C12']),
 ]
 
 
